@@ -76,5 +76,32 @@ func TestVF_C15_E2E(t *testing.T) {
 				return
 			}
 		}
+		// every verification entry point applies the same encoding, marker included: the list entry
+		// point, and for a single proof also ProofD.Verify (marker as given) / ProofU.Verify (no marker)
+		if !pl.Verify(pks, ctx, nonce, issig, nil) || pl.Verify(pks, ctx, nonce, !issig, nil) {
+			for _, p := range pl {
+				if d, ok := p.(*ProofD); ok && c11Ambiguous(d) {
+					return
+				}
+			}
+			rec.Fail(rt, "list-verification-does-not-follow-the-session-marker", map[string]any{"session": s.String(), "issig": issig})
+			return
+		}
+		if n == 1 {
+			rec.Case(fmt.Sprintf("single-proof-entry-point/issig=%v", issig), true, "sp|"+s.String()+want.String())
+			switch q := pl[0].(type) {
+			case *ProofD:
+				if c11Ambiguous(q) {
+					return
+				}
+				if !q.Verify(pks[0], ctx, nonce, issig) || q.Verify(pks[0], ctx, nonce, !issig) {
+					rec.Fail(rt, "ProofD.Verify-does-not-follow-the-session-marker", map[string]any{"session": s.String(), "issig": issig})
+				}
+			case *ProofU:
+				if got := q.Verify(pks[0], ctx, nonce); got != !issig {
+					rec.Fail(rt, "ProofU.Verify-verdict-differs-from-unmarked-challenge", map[string]any{"session": s.String(), "issig": issig, "verdict": got})
+				}
+			}
+		}
 	})
 }
